@@ -3,6 +3,7 @@ package c10
 import (
 	"encoding/base64"
 	"fmt"
+	"strings"
 	"testing"
 
 	"github.com/cnotch/ipchub/config"
@@ -13,13 +14,17 @@ import (
 // streamSDP describes the case's H.264 + AAC stream the way a publisher would.
 func streamSDP(c *caseSpec) string {
 	b64 := base64.StdEncoding.EncodeToString
+	sprop := "; sprop-parameter-sets=" + b64(mustHex(c.SPS)) + "," + b64(mustHex(c.PPS))
+	if c.NoSprop {
+		sprop = ""
+	}
 	ch := 2
 	if c.Rate <= 16000 {
 		ch = 1
 	}
 	return "v=0\r\no=- 0 0 IN IP4 127.0.0.1\r\ns=verif\r\nc=IN IP4 127.0.0.1\r\nt=0 0\r\n" +
 		"m=video 0 RTP/AVP 96\r\na=rtpmap:96 H264/90000\r\n" +
-		"a=fmtp:96 packetization-mode=1; sprop-parameter-sets=" + b64(mustHex(c.SPS)) + "," + b64(mustHex(c.PPS)) + "\r\n" +
+		"a=fmtp:96 packetization-mode=1" + sprop + "\r\n" +
 		"a=control:streamid=0\r\n" +
 		fmt.Sprintf("m=audio 0 RTP/AVP 97\r\na=rtpmap:97 MPEG4-GENERIC/%d/%d\r\n", c.Rate, ch) +
 		"a=fmtp:97 profile-level-id=1;mode=AAC-hbr;sizelength=13;indexlength=3;indexdeltalength=3; config=" + c.ASC + "\r\n" +
@@ -36,25 +41,36 @@ func setStreamConfig(dir string, fragment int) {
 // frame of the GOP >= fragment behind its key frame) and shorter than twice
 // it, so the key frame of GOP g completes segment g; after writing that key
 // frame the schedule waits for the muxer goroutine (sync) and then reads.
-func genStreamCase(rt *rapid.T, n int) *caseSpec {
+func genStreamCase(rt *rapid.T, n int) (*caseSpec, []string) {
 	c := &caseSpec{Stream: true, FlushAt: -1}
 	c.Disk = rapid.Bool().Draw(rt, "disk")
 	c.Fragment = rapid.SampledFrom([]int{1, 1, 2}).Draw(rt, "fragment")
-	ps := repoParamSets[rapid.IntRange(0, len(repoParamSets)-1).Draw(rt, "paramSet")]
+	base := rapid.IntRange(0, len(repoParamSets)-1).Draw(rt, "paramSet")
+	ps := repoParamSets[base]
 	c.SPS, c.PPS = b64hex(ps[0]), b64hex(ps[1])
+	// half of the cases publish RTP packets (Stream.WriteRtpPacket -> depacketizer
+	// -> muxer), the only way in-band parameter sets reach the metadata for real
+	c.Rtp = rapid.Bool().Draw(rt, "rtp")
 	ac := audioConfigs[rapid.IntRange(0, len(audioConfigs)-1).Draw(rt, "audioConfig")]
 	c.ASC, c.Rate = ac.asc, ac.rate
 	c.Path = fmt.Sprintf("/c10/s%d", n)
 	g := &caseGen{rt: rt, c: c, F: int64(c.Fragment) * 90000, cad: 1024 * 90000 / int64(ac.rate)}
+	g.paramSetMode(base, c.Rtp, 4) // the RTP path is the one that keeps the metadata for real: half of its cases
 	// the first segment counts its duration from 0: a start stamp beyond twice the
 	// fragment length would let the first audio frame cut it (the open finding),
 	// and the schedule below could no longer tell which key frame completes what
 	g.now = rapid.SampledFrom([]int64{0, 1, 4500, 45000}).Draw(rt, "t0")
+	if c.Rtp && g.now > 4500 {
+		g.now = 4500 // the depacketizer adds 0.5 s
+	}
 	g.ta = g.now
 	gops := rapid.IntRange(5, 12).Draw(rt, "gops")
 	for k := 0; k < gops; k++ {
 		t0 := g.now
 		d := rapid.Int64Range(g.F+9000, g.F*19/10).Draw(rt, "d")
+		for _, x := range g.paramSets(t0) {
+			c.Ops = append(c.Ops, x.o)
+		}
 		c.Ops = append(c.Ops, op{K: "v", Hdr: 0x65, Size: g.size(false), PTS: t0, DTS: t0})
 		if k >= 1 {
 			c.Ops = append(c.Ops, op{K: "sync", Back: k})
@@ -81,7 +97,7 @@ func genStreamCase(rt *rapid.T, n int) *caseSpec {
 		g.now = t0 + d
 	}
 	c.Ops = append(c.Ops, op{K: "close"}, op{K: "read", Rd: rapid.IntRange(0, 5).Draw(rt, "reader"), N: -1})
-	return c
+	return c, g.stats
 }
 
 // TestThroughMediaStream drives media.Stream (its mpegts.Muxer goroutine feeds
@@ -94,10 +110,15 @@ func TestThroughMediaStream(t *testing.T) {
 	evid.Checks(120, 1200)
 	rapid.Check(t, func(rt *rapid.T) {
 		n++
-		c := genStreamCase(rt, n)
+		c, stats := genStreamCase(rt, n)
 		res := check(rt, c, work, "media-stream")
 		if res.infra == "" {
 			synced++
+			for _, s := range stats {
+				if strings.HasPrefix(s, "ps:") {
+					evid.Class("media.Stream:" + s)
+				}
+			}
 		}
 	})
 	if synced*10 < n*8 {
